@@ -1,5 +1,5 @@
 #!/usr/bin/env python3
-"""Rewrites the seeded-changes table of DESIGN.md (§0.4) from seeded/<id>/meta.json and seeded/<id>/SUMMARY.txt."""
+"""Rewrites the seeded-changes table of DESIGN.md (§0.5) from seeded/<id>/meta.json and seeded/<id>/SUMMARY.txt."""
 import json, os, glob, re
 VERIF = os.path.dirname(os.path.dirname(os.path.abspath(__file__)))
 rows = []
@@ -16,9 +16,9 @@ for d in sorted(glob.glob(os.path.join(VERIF, "seeded", "C*"))):
 table = "| seed | property | what it changes (needs to manifest) | caught by the property's check |\n|---|---|---|---|\n" + "\n".join(rows) + "\n"
 p = os.path.join(VERIF, "DESIGN.md")
 s = open(p).read()
-a = s.index("### 0.4 Seeded changes")
+a = s.index("### 0.5 Seeded changes")
 b = s.index("---------------------------------------------------------------------------", a)
-head = "### 0.4 Seeded changes (independent sub-agents; `seeded/<id>/`) and which check catches them\n\nEach change was produced by a fresh sub-agent that saw only the property text and a scratch worktree; I confirmed in a scratch worktree that its demonstration passes without and fails with the patch and that the existing suite passes with it (`lib/seed_confirm.sh`, results in `seeded/<id>/meta.json`), then ran the property's quick check against the patched worktree. `chain_mutation_sweep.json` additionally records 37 syntactic mutants of consensus.go/contracts.go/update.go (36 flagged; the remaining one, `index.Height > rejectBuffer`, is equivalent: `RejectContracts(0)` selects nothing).\n\n"
+head = "### 0.5 Seeded changes (independent sub-agents; `seeded/<id>/`) and which check catches them\n\nEach change was produced by a fresh sub-agent that saw only the property text and a scratch worktree; I confirmed in a scratch worktree that its demonstration passes without and fails with the patch and that the existing suite passes with it (`lib/seed_confirm.sh`, results in `seeded/<id>/meta.json`), then ran the property's quick check against the patched worktree. `chain_mutation_sweep.json` additionally records 37 syntactic mutants of consensus.go/contracts.go/update.go (36 flagged; the remaining one, `index.Height > rejectBuffer`, is equivalent: `RejectContracts(0)` selects nothing).\n\n"
 s = s[:a] + head + table + "\n" + s[b:]
 open(p, "w").write(s)
 print(len(rows), "seeds")
